@@ -99,6 +99,16 @@ func init() {
 		RequiredProbes: []string{"checkpoints", "reportfn_blocked", "reports_dropped", "skipped_range_named", "transparency_probes", "foreign_extensions_refused"},
 		QuickS:         40, ThoroughS: 600,
 	}
+	propSpecs["C07"] = &PropSpec{
+		ID: "C07",
+		Rule: "configuration B - nothing stubbed: fs/, metadb/, bbolt and the kernel are real (tmpfs directory). Three kinds of seeded runs: (trace, 50%) a plan of 4-17 operations (appends with rotation, head/tail/full truncations, stable sets, reopens) executed by a child process through wal.Open(dir) with production defaults under `strace -f -y`; every API call is bracketed by marker syscalls and the trace is judged by per-file ordering rules relative to the acknowledgement markers: R1 no pwrite64 to a segment file after its last fsync at a StoreLogs ack; R2 a segment file created (or, since fix 63643b0, opened read-write) in this process and written by an acknowledged append has an fsync of the directory in between; R3 every unlink of a segment file is followed by a directory fsync before the enclosing call's ack; R4 segment files are created with O_EXCL and preallocated before the first write (plus a VFS-level probe: Create yields `size` zero bytes and a second Create fails); R5 wal-meta.db appears only by rename from the temporary name after its writes were fsynced, followed by a directory fsync before Open's ack. (diff, 33%) one random sequence of 10-40 VFS calls (create / open / write / read at and beyond EOF / sync / delete with open handles / list + sizes) applied to fs.FS and to the simulated disk: results, error classes, sizes and bytes must agree - the stub-fidelity proof for configuration A. (kill, 17%) the child runs the plan over pass-through wrappers and SIGKILLs itself before the k-th fs/metadb call (incl. during the very first Open while wal-meta.db is created); a second process must open the directory, find every acknowledged entry and stable key, and accept an append. " +
+			"Non-trivial = every run; distinct = (mode, files created, files unlinked, opens) / kill point bucket.",
+		Components:     "everything real (wal, segment, fs, metadb, bbolt, kernel on tmpfs); recording seam = syscall boundary (strace 'trace' runs), process boundary (kill runs)",
+		Assumptions:    []string{"tmpfs executes fsync as a no-op but the syscalls are issued and traced identically", "the relative order of syscalls of the rotation thread and the caller varies between executions; R1-R5 are per-file rules relative to markers issued by the acknowledged goroutine, which do not depend on it", "power loss is not exercised here (that is what configuration A's simulated disk is for); kill runs cover process crashes only"},
+		RequiredProbes: []string{"trace_runs", "diff_runs", "kill_runs", "create_probes", "trace_wal_created", "trace_wal_unlinked", "trace_dir_fsync", "trace_meta_renamed", "trace_acks_StoreLogs", "trace_wal_opened_rw"},
+		RequiredFired:  []string{"sigkill"},
+		QuickS:         45, ThoroughS: 600,
+	}
 	propSpecs["C19"] = &PropSpec{
 		ID: "C19",
 		Rule: "each run = one CopyLogs (80%) or CopyStable (20%) call. CopyLogs: source of 0,1,2,3,5,8,13,40 or 120 entries (payload 0-5000 bytes, extensions) starting at 1, 2, 1000, 2^32-2 or 2^40; batchBytes 0, 1, around one entry, 200, 5000, 2^30; source and destination each one of {real WAL over the simulated disk, real raft-boltdb store on tmpfs, in-memory reference store}; progress channel nil / buffered / unbuffered and never drained; every store call is a seam: in a quarter of the runs the context is cancelled before store call k, in a quarter store call k returns an I/O error. " +
